@@ -1295,6 +1295,19 @@ func (e *Env) evalCall(n SCall) Val {
 				}
 			}
 			return e.fail("visited(): no range over %s is in progress", exprString(n.Args[0]))
+		case "exhausted":
+			// exhausted(m): the range over map m has been told by the runtime that there are no more keys
+			// (false while the iteration is in progress, and after leaving it by break or goto)
+			m := e.eval(n.Args[0])
+			for gk, mref := range e.st.ghost {
+				if strings.HasPrefix(gk, "vismap:") && mref.S == m.T.S {
+					if d, ok := e.st.ghost["visdone:"+strings.TrimPrefix(gk, "vismap:")]; ok {
+						return Val{T: d, Typ: boolT}
+					}
+					return Val{T: False, Typ: boolT}
+				}
+			}
+			return e.fail("exhausted(): no range over %s was started", exprString(n.Args[0]))
 		case "typeIs":
 			v := e.eval(n.Args[0])
 			tn, ok := n.Args[1].(SIdent)
